@@ -5,14 +5,15 @@
 //!     `S <outcome> <value of the destination slot> <cap0> <len0> ... <cap3> <len3> <live> <words> <flags>`
 //! where cap/len come from `verif_hooks::repr_layout_ibig`, `live`/`words` are the number of heap
 //! blocks / words allocated inside dashu calls of this history that are still alive (counting
-//! allocator below), `flags` are allocator-detected errors (bit 0 bad/double free, 1 size mismatch at
-//! free, 2 write outside the block, 4 write after free).  At the end: `E v0 v1 v2 v3 live words flags`
+//! allocator below), `flags` are allocator-detected errors (bit 0 bad/double free, 1 LAYOUT mismatch:
+//! `dealloc` / `realloc` called with a size or an alignment different from the one the block was
+//! allocated with - the GlobalAlloc contract -, 2 write outside the block, 4 write after free).  At the end: `E v0 v1 v2 v3 live words flags`
 //! after all four values were dropped (ledger must be back to 0 0).  Nothing is judged here.
 //!
 //! The guard allocator is harness code, not dashu: every block gets 32 poisoned bytes on both sides
 //! (checked at free), fresh memory is filled with 0xCD, freed memory with 0xDD and kept in a quarantine
 //! ring (checked for writes when it leaves the ring), `realloc` always moves.
-use dashu_base::{BitTest, DivRem, Gcd, PowerOfTwo, SquareRoot};
+use dashu_base::{BitTest, DivRem, Gcd, PowerOfTwo, SquareRoot, UnsignedAbs};
 use dashu_int::verif_hooks::repr_layout_ibig;
 use hlib::*;
 use std::alloc::{GlobalAlloc, Layout, System};
@@ -63,7 +64,7 @@ unsafe impl GlobalAlloc for Guard {
         let tagged = IN_OP.load(SeqCst);
         *(p as *mut usize) = size;
         *(p as *mut usize).add(1) = MAGIC_LIVE;
-        *(p as *mut usize).add(2) = tagged as usize;
+        *(p as *mut usize).add(2) = tagged as usize | l.align() << 8;
         *(p as *mut usize).add(3) = 0xA5A5_A5A5_A5A5_A5A5;
         let body = p.add(PAD);
         std::ptr::write_bytes(body, 0xCD, size);
@@ -83,13 +84,15 @@ unsafe impl GlobalAlloc for Guard {
         let p = ptr.sub(PAD);
         let size = *(p as *mut usize);
         let magic = *(p as *mut usize).add(1);
-        let tagged = *(p as *mut usize).add(2);
+        let tagged = *(p as *mut usize).add(2) & 0xff;
+        let align = *(p as *mut usize).add(2) >> 8;
         if magic != MAGIC_LIVE {
             // double free or a pointer that was never handed out: do not touch it
             FLAGS.fetch_or(1, SeqCst);
             return;
         }
-        if size != l.size() {
+        if size != l.size() || align != l.align() {
+            // freed with a layout that is not the layout of the allocation
             FLAGS.fetch_or(2, SeqCst);
         }
         if *(p as *mut usize).add(3) != 0xA5A5_A5A5_A5A5_A5A5 {
@@ -119,7 +122,30 @@ unsafe impl GlobalAlloc for Guard {
             release(old.0 as *mut u8, old.1);
         }
     }
-    // realloc: the default implementation = alloc + copy + dealloc (always moves)
+    // realloc always moves; the layout handed in must be the layout of the allocation
+    unsafe fn realloc(&self, ptr: *mut u8, l: Layout, new_size: usize) -> *mut u8 {
+        if l.align() > PAD {
+            return System.realloc(ptr, l, new_size);
+        }
+        let p = ptr.sub(PAD);
+        let size = *(p as *mut usize);
+        let magic = *(p as *mut usize).add(1);
+        let align = *(p as *mut usize).add(2) >> 8;
+        if magic != MAGIC_LIVE {
+            FLAGS.fetch_or(1, SeqCst);
+            return std::ptr::null_mut();
+        }
+        if size != l.size() || align != l.align() {
+            FLAGS.fetch_or(2, SeqCst);
+        }
+        let new = self.alloc(Layout::from_size_align_unchecked(new_size, align));
+        if !new.is_null() {
+            std::ptr::copy_nonoverlapping(ptr, new, size.min(new_size));
+            // release with the recorded layout: the mismatch (if any) is already flagged once
+            self.dealloc(ptr, Layout::from_size_align_unchecked(size, align));
+        }
+        new
+    }
 }
 
 #[global_allocator]
@@ -522,6 +548,87 @@ fn do_step(pool: &mut Pool, t: &[&str]) -> Result<usize, &'static str> {
             }
             let r = ref_u(pool, a).sqrt();
             pool[d] = r.into();
+            Ok(d)
+        }
+        "ring" => {
+            // ring <kind> d a b e: arithmetic modulo |pool[b]| through fast_div::ConstDivisor, modular::Reduced and
+            // the num_modular::Reducer interface.  With a modulus of >= 3 words every path into
+            // Buffer::into_boxed_slice is taken (ConstLargeDivisor::new, ReducedLarge::from_ubig / one,
+            // inv_large, convert_from_normalized); the ring and its elements are dropped inside the step.
+            use dashu_int::fast_div::ConstDivisor;
+            use num_modular::Reducer;
+            let kind = t[1];
+            let (d, a, b, e) = (s(2), s(3), s(4), s(5));
+            let m: UBig = pool[b].clone().unsigned_abs();
+            if m <= UBig::ONE {
+                return Err("e");
+            }
+            let r: IBig = match kind {
+                "new" => {
+                    // the modulus is moved into the divisor (slot b becomes zero) and read back
+                    let ring = ConstDivisor::new(take(&mut pool[b]).unsigned_abs());
+                    ring.value().into()
+                }
+                "res" => {
+                    let ring = ConstDivisor::new(m);
+                    ring.reduce(pool[a].clone()).residue().into()
+                }
+                "mul" => {
+                    let ring = ConstDivisor::new(m);
+                    let x = ring.reduce(pool[a].clone());
+                    let y = ring.reduce(pool[d].clone());
+                    let z = &x * &y;
+                    let z2 = z.clone() + &x;
+                    drop(z);
+                    (z2 - y).residue().into()
+                }
+                "inv" => {
+                    let ring = ConstDivisor::new(m);
+                    let x = ring.reduce(pool[a].clone());
+                    match x.inv() {
+                        Some(v) => v.residue().into(),
+                        None => IBig::ZERO,
+                    }
+                }
+                "pow" => {
+                    let ring = ConstDivisor::new(m);
+                    ring.reduce(pool[a].clone()).pow(&UBig::from(e)).residue().into()
+                }
+                "rem" => {
+                    let ring = ConstDivisor::new(m);
+                    &pool[a] % &ring
+                }
+                "remv" => {
+                    let ring = ConstDivisor::new(m);
+                    take(&mut pool[a]) % &ring
+                }
+                "div" => {
+                    let ring = ConstDivisor::new(m);
+                    &pool[a] / &ring
+                }
+                "rmul" | "rinv" | "rpow" | "rneg" => {
+                    let ring = <ConstDivisor as Reducer<UBig>>::new(&m);
+                    let x = ring.transform(pool[a].clone().unsigned_abs());
+                    let y = match kind {
+                        "rmul" => {
+                            let q = ring.sqr(x.clone());
+                            ring.mul(&q, &x)
+                        }
+                        "rinv" => match ring.inv(x) {
+                            Some(v) => v,
+                            None => ring.transform(UBig::ZERO),
+                        },
+                        "rpow" => ring.pow(x, &UBig::from(e)),
+                        _ => {
+                            let n = ring.neg(x.clone());
+                            ring.sub(&n, &ring.dbl(x))
+                        }
+                    };
+                    Reducer::residue(&ring, y).into()
+                }
+                other => panic!("bad ring kind {}", other),
+            };
+            pool[d] = r;
             Ok(d)
         }
         "addp" | "mulp" | "subp" => {
